@@ -22,5 +22,6 @@ P_C01_SelfArgs == SelfArgs(family, decl)
 P_C01_Scope    == Scope(family, decl)
 P_C01_Order    == Order(family, decl)
 P_C01_Fresh    == FreshOk(family, decl)
+P_C01_Bounds   == Bounds(family, decl)
 Emit == EmitCases /\ family = "split" => PrintT(<<"CASE", ToJson([decl |-> decl])>>)
 =============================================================================
